@@ -336,6 +336,11 @@ def run_cases(ctx, binp, prop, shards=8, extra=None, budget_s=900, env=None):
                     gores[i] = lines[0]
         except subprocess.TimeoutExpired:
             pass
+        except OSError:
+            # a payload of several MB does not fit on a command line ("Argument list too long"): the
+            # result seen under load is kept as it is
+            with slock:
+                stats["recheck_skipped_payload_too_long"] = stats.get("recheck_skipped_payload_too_long", 0) + 1
 
     for i in suspicious[:4]:
         recheck(i)
